@@ -10,7 +10,18 @@ PROP = "C09"
 
 
 def main(tier, seed):
-    rep = Report(PROP, tier, seed, "model_checking")
+    # programs generated token by token by TLC (Gen.tla, vocabulary "fiber"): fibers created from the functions declared so far, resumed
+    # with / without a value from any statement position (also from inside functions, loops, try / catch / finally blocks and other
+    # fibers), yields with / without a value from any function - executed by the reference machine and replayed on both builds
+    FIB = ["print", "var", "set", "fn", "call", "call1", "return", "try", "catch", "finally", "throw", "while", "fiber", "exprstmt"]
+    q = tier == "quick"
+    plan = [
+        {"name": "fibers-exhaustive", "cfg": profcheck.make_cfg("c09x", ["print", "fn", "call1", "fiber", "exprstmt", "return"], 6 if q else 7, names=("a",), fnnames=("f",)),
+         "trigger_free": True},
+        {"name": "fibers-simulated", "cfg": profcheck.make_cfg("c09s", FIB, 13, names=("a",), fnnames=("f", "g")), "simulate": 12000 if q else 150000,
+         "trigger_free": True},
+    ]
+    rep = profcheck.run(PROP, tier, seed, plan, feature=lambda r: "Fiber" in str(r["prog"]), release_too=True, what="generated fiber program")
     rng = random.Random(seed)
     bins = [("dev", vlib.build_harness("dev")), ("release", vlib.build_harness("release"))]
     progs = scenarios.fiber_scenarios(rng, 1500 if tier == "quick" else 25000, nfib=3)
